@@ -61,6 +61,8 @@ class PyRepo:
                     tree = ast.parse(src, filename=path)
                 except SyntaxError as e:
                     raise AnalysisError(f'{path} does not parse: {e}')
+                from .pynormal import fold_temporaries
+                self.folded = getattr(self, 'folded', 0) + fold_temporaries(tree)
                 self.modules[rel] = self._index(rel, path, tree, src)
         # positional fields of dataclasses (for `case C(a, b)` patterns)
         from . import pyeval
